@@ -14,8 +14,11 @@ CONSTANTS
   ProbeFroms <- TraceProbeFroms
   ProbeNos <- TraceProbeNos
   KeepRmaxVariant = FALSE
+  Pids = {1}
+  ProbePids <- TraceProbePids
+  MaxRepl = 0
 CONSTRAINT Track
-INVARIANTS Conform TypeOK C07_Contiguous C07_CachedLogEnd C07_IndexSound C08_KeyUnique C08_IdOnce C08_FilterCovers
-PROPERTIES C07_AppendAtEnd C07_ReopenNeutral C08_DuplicateRejected
+INVARIANTS Conform TypeOK C07_Contiguous C07_CachedLogEnd C07_IndexSound C08_KeyUnique C08_IdOnce C08_FilterCovers TypeOKX C07_ExactSound
+PROPERTIES C07_AppendAtEnd C07_ReopenNeutral C08_DuplicateRejected C07_ExactAtEnd C07_ReplaceKeeps C07_ReopenNeutralX C08_DuplicateRejectedX
 POSTCONDITION Accepted
 CHECK_DEADLOCK FALSE
